@@ -36,12 +36,27 @@ func doLZ4Encode(data []byte, level int) ([]byte, error) {
 	return buf, nil
 }
 
+// lz4MaxRatio lz4 block的最大压缩比
+const lz4MaxRatio = 255
+
 func doLZ4Decode(buf []byte) ([]byte, error) {
-	dst := make([]byte, 10*len(buf))
-	n, err := lz4.UncompressBlock(buf, dst)
-	if err != nil {
-		return nil, err
+	// lz4 block并没有记录原始数据的长度，因此先按10倍分配，
+	// 如果空间不足则增大后重试(最大为lz4的最大压缩比)，
+	// 否则压缩比大于10的数据无法解压
+	size := 10 * len(buf)
+	maxSize := lz4MaxRatio * len(buf)
+	for {
+		dst := make([]byte, size)
+		n, err := lz4.UncompressBlock(buf, dst)
+		if err == nil {
+			return dst[:n], nil
+		}
+		if err != lz4.ErrInvalidSourceShortBuffer || size >= maxSize {
+			return nil, err
+		}
+		size *= 4
+		if size > maxSize {
+			size = maxSize
+		}
 	}
-	dst = dst[:n]
-	return dst, nil
 }
